@@ -9,7 +9,7 @@
    evaluateNode on a nil root). *)
 From Coq Require Import List NArith ZArith Bool.
 From Verif Require Import model.CqlEval proofs.CqlEvalProofs.
-From Verif Require lib.Quote model.CqlSyntax model.CqlParser proofs.CqlAcceptedProofs proofs.CqlBridgeProofs.
+From Verif Require lib.Quote model.CqlSyntax model.CqlPrinter model.CqlParser proofs.CqlAcceptedProofs proofs.CqlBridgeProofs.
 Import ListNotations.
 
 (* -- totality ---------------------------------------------------------------------------------------- *)
@@ -50,6 +50,17 @@ Theorem c15_parsed_trees_convert : forall e s n, CqlAcceptedProofs.env_ok e -> Q
   exists m, CqlBridgeProofs.conv n = Some m /\ wf m.
 Proof. exact CqlBridgeProofs.parsed_tree_converts. Qed.
 Print Assumptions c15_parsed_trees_convert.
+
+(* from the query TEXT: the tree built for a text, once this model's validator admits it, is simplified to the same
+   root by the parser model's Simplify and by this model's (the two transcriptions agree under the conversion), and
+   that root evaluates to a boolean on every typed contact *)
+Theorem c15_parsed_text_total : forall e s n m e' r c,
+  CqlParser.parse_front e s = CqlParser.FTree n -> CqlBridgeProofs.conv n = Some m ->
+  validate e' r m = None -> typed_contact r c ->
+  CqlBridgeProofs.Ro (CqlPrinter.simplify n) (simplify m)
+  /\ exists b, eval_root e' r (query_property c) (simplify m) = RBool b.
+Proof. exact CqlBridgeProofs.parsed_text_total. Qed.
+Print Assumptions c15_parsed_text_total.
 
 (* the validator is not vacuous and the evaluator does panic outside of what it admits *)
 Example c15_panic_reachable :
